@@ -1083,6 +1083,12 @@ func parseIntIntr(sg bool) intrinsic {
 		if !ok || k != 0 || (base != 10 && base != 0) || (bits != 64 && bits != 0) {
 			return w.havocParse(s, "ParseInt", BV(64))
 		}
+		if base == 0 && str.Len() > 1 {
+			// base 0: a leading "0" selects octal (or 0x / 0b / 0o): not the decimal value
+			if w.decide(s, Eq(str.Byte(0), ConstU('0', 8))) {
+				return w.havocParse(s, "ParseInt(base 0, leading zero)", BV(64))
+			}
+		}
 		if sg {
 			// value must fit int64: digits <= 19 and n <= MaxInt64, else range error
 			if w.decide(s, BvCmp("bvslt", n, ConstI(0, 64))) {
